@@ -124,7 +124,7 @@ def run(R, job):
             if len(fails) >= 3: break
             # (b) save_html
             outdir = tempfile.mkdtemp(prefix="out", dir=tmp)
-            libdir = r.choice(["lib", "lib", None, "a/b", "my lib", ""])
+            libdir = r.choice(["lib", "lib", None, "a/b", "my lib", "", ".deps/js", "./lib", "..lib"])
             iv = r.random() < 0.6
             file = os.path.join(outdir, r.choice(["index.html", "sub dir/page.html"]))
             os.makedirs(os.path.dirname(file), exist_ok=True)
